@@ -9,6 +9,42 @@ from .common import FIELD, MESH, REGION
 from .c08 import write_effects
 
 FLOOR = 60
+ANCHORS = [
+    'field.Field._check_same_mesh_and_field_dim',
+    'field.Field.is_same_vectorspace',
+    'field.Field._apply_operator',
+    'field.Field.__pos__',
+    'field.Field.__neg__',
+    'field.Field.__abs__',
+    'field.Field.__pow__',
+    'field.Field.__add__',
+    'field.Field.__radd__',
+    'field.Field.__sub__',
+    'field.Field.__rsub__',
+    'field.Field.__mul__',
+    'field.Field.__rmul__',
+    'field.Field.__truediv__',
+    'field.Field.__rtruediv__',
+    'field.Field.dot',
+    'field.Field.__matmul__',
+    'field.Field.__rmatmul__',
+    'field.Field.cross',
+    'field.Field.__and__',
+    'field.Field.__rand__',
+    'field.Field.__lshift__',
+    'field.Field.__rlshift__',
+    'field.Field.angle',
+    'field.Field.real',
+    'field.Field.imag',
+    'field.Field.phase',
+    'field.Field.abs',
+    'field.Field.conjugate',
+    'field.Field.__array_ufunc__',
+    'mesh.Mesh.allclose',
+    'mesh.Mesh.__eq__',
+    'region.Region.allclose',
+    'region.Region.__eq__',
+]   # functions whose code the property is anchored in (mutation analysis, evidence)
 
 OPS = {"__add__": ("np.add", "+"), "__sub__": ("np.subtract", "-"), "__mul__": ("np.multiply", "*"),
        "__truediv__": ("np.divide", "/"), "__pow__": ("np.power", "**")}
